@@ -134,7 +134,7 @@ class Topo:
             elif k == "list":
                 w[f"l{j}"] = [child] if go else []
             elif k == "dict":
-                w[f"l{j}"] = {"k": child} if go else {}
+                w[f"l{j}"] = {"kk": child} if go else {}
             elif k == "vtuple":
                 w[f"l{j}"] = [child] if go else []
             elif k == "member":
@@ -154,7 +154,7 @@ class Topo:
             elif k == "list":
                 kw[f"l{j}"] = [child] if go else []
             elif k == "dict":
-                kw[f"l{j}"] = {"k": child} if go else {}
+                kw[f"l{j}"] = {"kk": child} if go else {}
             elif k == "vtuple":
                 kw[f"l{j}"] = (child,) if go else ()
             elif k == "member":
@@ -173,11 +173,11 @@ def root_ann(ns, form, node):
 
 
 def root_wire(form, w):
-    return {"cls": w, "list": [w], "dict": {"k": w}, "vtuple": [w], "opt": w}[form]
+    return {"cls": w, "list": [w], "dict": {"kk": w}, "vtuple": [w], "opt": w}[form]  # (two-character keys: a 2-element first member is what pair sniffing looks at)
 
 
 def root_expected(form, e):
-    return {"cls": e, "list": [e], "dict": {"k": e}, "vtuple": (e,), "opt": e}[form]
+    return {"cls": e, "list": [e], "dict": {"kk": e}, "vtuple": (e,), "opt": e}[form]
 
 
 def _reachable(n, links):
